@@ -67,6 +67,17 @@ def run(e: Engine, rep: Report):
              'buffer\'s value itself, not a transformation of it (the '
              'embedded original is part of it)')
     b9(e, rep)
+    rep.rule('B10', 'the reply a relay error carries is made for that '
+             'failure: no relay module raises a relay error with a '
+             'module-level / imported Reply object (the queue annotates the '
+             'reply of an exhausted message in place - on a shared object '
+             'the note sticks and every later bounce misquotes its reply)')
+    b10(e, rep)
+    rep.rule('B11', 'recipients and replies handed on together '
+             '(_split_by_reply / _retry_later) stay parallel: neither the '
+             'recipients of the failure envelope nor the replies pass '
+             'through sorted / set / reversed / dict on their own')
+    b11(e, rep)
 
 
 def b5(e: Engine, rep: Report):
@@ -1046,3 +1057,146 @@ def b9(e: Engine, rep: Report):
                   'embedded in it (it is no longer the failed message as '
                   'it was)' % ' '.join(ast.unparse(n.ast.args[0]).split())[:60],
                   loc=n.loc(), reason='getvalue() / join of the parts')
+
+
+# --------------------------------------------------------------------- B10
+def _shared_reply_names(e, mod):
+    """module-level names that are Reply objects (made here or imported
+    from a module that makes them at its top level)"""
+    out = {}
+    m = e.p.modules.get(mod)
+    if m is None:
+        return out
+    for st in m.tree.body:
+        if isinstance(st, ast.Assign) and isinstance(st.value, ast.Call) \
+                and ast.unparse(st.value.func).rpartition('.')[2] == 'Reply':
+            for t in st.targets:
+                if isinstance(t, ast.Name):
+                    out[t.id] = '%s:%d' % (m.relpath, st.lineno)
+        elif isinstance(st, ast.ImportFrom) and st.module:
+            src = st.module
+            if st.level:
+                base = mod.split('.')
+                # a package's __init__ counts as the package itself
+                if not m.path.endswith('__init__.py'):
+                    base = base[:-1]
+                base = base[:len(base) - (st.level - 1)]
+                src = '.'.join(base + ([st.module] if st.module else []))
+            if src == mod:
+                continue
+            inner = _shared_reply_names(e, src) if src in e.p.modules \
+                else {}
+            for a in st.names:
+                if a.name in inner:
+                    out[a.asname or a.name] = inner[a.name]
+    return out
+
+
+def b10(e: Engine, rep: Report):
+    n = 0
+    cache = {}
+    for f in e.p.functions.values():
+        mod = f.module.name
+        if not mod.startswith('slimta.relay'):
+            continue
+        if mod not in cache:
+            cache[mod] = _shared_reply_names(e, mod)
+        shared = cache[mod]
+        local = set(f.params) | {
+            x.id for x in walk_own(f.node) if isinstance(x, ast.Name) and
+            isinstance(x.ctx, ast.Store)}
+        for c in walk_own(f.node):
+            if not isinstance(c, ast.Call):
+                continue
+            nm = ast.unparse(c.func).rpartition('.')[2]
+            if not (nm.endswith('RelayError') or nm == 'factory' or
+                    nm == 'set_exception'):
+                continue
+            n += 1
+            rep.evaluations += 1
+            rep.functions.add(f.qname)
+            bad = [a for a in list(c.args) + [k.value for k in c.keywords]
+                   if isinstance(a, ast.Name) and a.id in shared and
+                   a.id not in local]
+            rep.check(not bad, 'B10', f.qname,
+                      'reply of `%s`' % ' '.join(ast.unparse(c).split())[:50],
+                      'the relay error carries `%s`, the one Reply object '
+                      'made at %s and shared by every failure of this kind: '
+                      'the queue\'s in-place note on an exhausted message '
+                      '(and any other edit of the reply) shows up in the '
+                      'bounces of all later messages' % (
+                          bad[0].id if bad else '',
+                          shared.get(bad[0].id) if bad else ''),
+                      loc=f.loc(c), reason='reply made for this failure '
+                      '(or a copy)')
+    if n < 5:
+        rep.error('anchor vanished: relay error constructions (%d < 5)' % n)
+
+
+# --------------------------------------------------------------------- B11
+def b11(e: Engine, rep: Report):
+    from .c06 import ORDER_CHANGERS
+    ctx = e.method_ctx(QUEUE, '_handle_partial_relay')
+    g = e.build(ctx, raises=lambda b, n, r: set(),
+                inline=e.inline_same_self(
+                    deny=['_split_by_reply', '_retry_later', '_perm_fail',
+                          '_pool_spawn', '_remove', '_add_queued']),
+                max_depth=3)
+    where = ctx.func.qname
+    rep.functions.add(where)
+    sites = [c for c in g.calls()
+             if e.call_name(c) in ('_split_by_reply', '_retry_later')]
+    if not sites:
+        rep.unknown('B11', where, 'recipients and replies stay parallel',
+                    'no _split_by_reply / _retry_later call found',
+                    loc=ctx.func.loc())
+        return
+    for c in sites:
+        args = c.ast.args[-2:] if e.call_name(c) == '_split_by_reply' \
+            else c.ast.args[1:3]
+        for a in args:
+            rep.evaluations += 1
+            xs = [common.expand(g, a, c.frame)]
+            if isinstance(a, ast.Name) and isinstance(xs[0], ast.Name):
+                # several definitions (one per failure class): each of them
+                xs = []
+                for st in walk_own(c.frame.ctx.func.node):
+                    if not (isinstance(st, ast.Assign) and
+                            len(st.targets) == 1):
+                        continue
+                    t = st.targets[0]
+                    if isinstance(t, ast.Name) and t.id == a.id:
+                        xs.append(common.expand(g, st.value, c.frame))
+                    elif isinstance(t, (ast.Tuple, ast.List)):
+                        for i, el in enumerate(t.elts):
+                            if not (isinstance(el, ast.Name) and
+                                    el.id == a.id):
+                                continue
+                            v, vf = st.value, c.frame
+                            if isinstance(v, ast.Call):
+                                v, vf = common.value_of(g, v, c.frame)
+                            if isinstance(v, (ast.Tuple, ast.List)) and \
+                                    i < len(v.elts):
+                                xs.append(common.expand(g, v.elts[i], vf))
+                xs = xs or [a]
+            bad, x = [], xs[0]
+            for x0 in xs:
+                b0 = [y for y in ast.walk(x0) if isinstance(y, ast.Call) and (
+                    (isinstance(y.func, ast.Name) and
+                     y.func.id in ORDER_CHANGERS) or
+                    (isinstance(y.func, ast.Attribute) and
+                     y.func.attr in ORDER_CHANGERS))]
+                if b0:
+                    bad, x = b0, x0
+            rep.check(not bad, 'B11', where,
+                      '`%s` handed to %s' % (ast.unparse(a),
+                                             e.call_name(c)),
+                      '`%s` is `%s`: it went through `%s` on its own, so '
+                      'entry i of the recipients and entry i of the replies '
+                      'no longer belong together - recipients are grouped '
+                      '(and bounced) under somebody else\'s reply' % (
+                          ast.unparse(a),
+                          ' '.join(ast.unparse(x).split())[:70],
+                          ' '.join(ast.unparse(bad[0]).split())[:30]
+                          if bad else ''), loc=c.loc(),
+                      reason='order as collected')
